@@ -67,6 +67,7 @@ def parseOracle? (toks : List String) : Option Oracle := toks.mapM parseOracleTo
 
 def parseAttempt? (s : String) : Option Attempt :=
   if s = "err" ∨ s = "-" then some .err
+  else if s = "hang" then some .err       -- blocks until the attempt's deadline: a real error (timeout)
   else if s = "cancel" then some .canceled
   else if s = "skip" then some .skip
   else match s.splitOn ":" with
@@ -258,6 +259,40 @@ def handle (st : DState) (line : String) : DState × String :=
     match c.toNat? with
     | some c => let st' : DState := ⟨kstep st.kw (.silence c), st.nodeIds, st.wired⟩; (st', showWorld st' [])
     | none => (st, "bad-op")
+  | ["capture", g] =>
+    -- what `CaptureReloadSelectionFallback` of latency-policy group g returns now
+    match g.toNat? with
+    | some g =>
+      let fb := captureFallback st.w g
+      let toks := [2, 3, 4, 5, 6, 7].filterMap fun i => (fb i).map fun d => s!"{i}:{d}"
+      (st, s!"F[{",".intercalate toks}]")
+    | none => (st, "bad-op")
+  | "cycle" :: n :: fam :: dur :: rest =>
+    -- one iteration of the probe loop, given `dur` ns of (virtual) time:
+    -- `cycle <n> <full|tcp|udp> <dur> t4=a1,a2 t6=a1,a2 d4=a1,a2 d6=a1,a2 | oracle`
+    let (sctoks, otoks) := splitBar rest
+    let fam? : Option Family := match fam with
+      | "full" => some .full | "tcp" => some .tcp | "udp" => some .udp | _ => none
+    let sc? : Option (List (Typ × Attempt × Attempt)) := sctoks.mapM fun tok =>
+      match tok.splitOn "=" with
+      | [t, as] =>
+        match parseTyp? t, as.splitOn "," with
+        | some t, [a1, a2] => do pure (t, (← parseAttempt? a1), (← parseAttempt? a2))
+        | _, _ => none
+      | _ => none
+    match n.toNat?, fam?, sc?, parseOracle? otoks, dur.toNat? with
+    | some n, some fam, some scl, some o, some dur =>
+      let sc : Typ → Attempt × Attempt := fun t =>
+        match scl.find? fun e => e.1 == t with | some e => e.2 | none => (.err, .err)
+      let opts := cycleOpts st.w n fam
+      let evs := cycleEvents st.w n fam sc o ++ [.tick dur]
+      let r := run st.w evs
+      let kw' := evs.foldl (fun kw e => kstep kw (.base e)) st.kw
+      let st' : DState := ⟨{ kw' with w := kw'.w.tab st.nodeIds }, st.nodeIds, st.wired⟩
+      let hs := ",".intercalate (probeTable.map fun t =>
+        s!"{typStr t}:{if opts.contains t then dialsUsed (sc t).1 (sc t).2 else 0}")
+      (st', s!"{showWorld st' r.2} H[{hs}]")
+    | _, _, _, _, _ => (st, "bad-op")
   | ws =>
     match parseEvent? ws with
     | none => (st, "bad-op")
